@@ -38,6 +38,14 @@ impl<T, B> FramedWrite<T, B> {
         &self.inner
     }
 
+    pub(crate) fn vk_io_mut(&mut self) -> &mut T {
+        &mut self.inner
+    }
+
+    pub(crate) fn vk_final_flush_done(&self) -> bool {
+        self.final_flush_done
+    }
+
     /// Replace the write buffer: capacity `cap`, of which `fill` bytes are occupied by `byte`
     /// (standing for frames buffered earlier and not yet flushed).
     pub(crate) fn vk_set_write_buf(&mut self, cap: usize, fill: usize, byte: u8) {
@@ -94,5 +102,52 @@ mod proofs {
             shape += 1;
         }
         kani::cover!(fill == 64 && min == 0, "cover.full_buffer_zero_threshold");
+    }
+
+    // C12 (nothing that was accepted for sending is lost on close) / C07: `shutdown` hands the connection's last bytes
+    // (typically the GOAWAY) to the transport BEFORE shutting the transport down, also when the first attempt is
+    // interrupted by a full socket: a `Pending` flush must leave "final flush done" unset, so that the next call
+    // flushes again instead of going straight to poll_shutdown with bytes still buffered.
+    // Pre-state: 23 bytes of earlier frames buffered, nothing parked.  Transport: Pending then Accept / Accept / Fail.
+    // @harness id=fw_shutdown_flushes_first props=C12,C07,C15 kind=bounded bound=write_buffer_fill_23_of_1200 tier=quick timeout=400 fn=FramedWrite::shutdown,FramedWrite::flush
+    #[kani::proof]
+    #[kani::unwind(6)]
+    fn fw_shutdown_flushes_first() {
+        use crate::proto::verif_kani::{IoMode, SymIo};
+        const FILL: usize = 23;
+        let w = crate::verif_kani::noop_waker();
+        let mut cx = Context::from_waker(&w);
+        let k: u8 = kani::any();
+        let mode = match k % 3 { 0 => IoMode::Accept, 1 => IoMode::Pending, _ => IoMode::Fail };
+        let mut fw: FramedWrite<SymIo, Bytes> = FramedWrite::new(SymIo::new(mode));
+        fw.vk_set_write_buf(1200, FILL, 0xEE);
+        let r1 = fw.shutdown(&mut cx);
+        match mode {
+            IoMode::Accept => {
+                assert!(matches!(r1, Poll::Ready(Ok(()))), "framed_write.shutdown.ready_when_transport_accepts");
+                assert!(fw.vk_io().shutdowns == 1 && fw.vk_io().written_at_shutdown == FILL && fw.vk_buffered_len() == 0,
+                    "framed_write.shutdown.everything_buffered_is_written_before_the_transport_is_shut_down");
+            }
+            IoMode::Pending => {
+                assert!(r1.is_pending(), "framed_write.shutdown.pending_while_the_flush_is_blocked");
+                assert!(fw.vk_io().shutdowns == 0 && fw.vk_buffered_len() == FILL, "framed_write.shutdown.blocked_flush_neither_shuts_down_nor_drops_bytes");
+                assert!(!fw.vk_final_flush_done(), "framed_write.shutdown.blocked_flush_is_not_recorded_as_done");
+                // the socket drains; the connection is polled again
+                fw.vk_io_mut().mode = IoMode::Accept;
+                let r2 = fw.shutdown(&mut cx);
+                assert!(matches!(r2, Poll::Ready(Ok(()))), "framed_write.shutdown.second_call_completes");
+                assert!(fw.vk_io().shutdowns == 1 && fw.vk_io().written_at_shutdown == FILL && fw.vk_buffered_len() == 0,
+                    "framed_write.shutdown.retry_writes_the_buffered_bytes_before_shutting_down");
+                std::mem::forget(r2);
+            }
+            IoMode::Fail => {
+                assert!(matches!(r1, Poll::Ready(Err(_))), "framed_write.shutdown.io_error_surfaces");
+                assert!(fw.vk_io().shutdowns == 0, "framed_write.shutdown.no_shutdown_after_a_failed_flush");
+            }
+        }
+        kani::cover!(k % 3 == 1, "cover.blocked_then_drained");
+        kani::cover!(k % 3 == 0, "cover.accepted");
+        std::mem::forget(r1);
+        std::mem::forget(fw);
     }
 }
